@@ -565,6 +565,10 @@ func ToEntry(n Node) (e *Entry) {
 	defer func() {
 		ms.setEntryCache(n, e)
 	}()
+	if g, ok := n.(*Grouping); ok {
+		ms.setGroupingInProgress(g, true)
+		defer ms.setGroupingInProgress(g, false)
+	}
 
 	// Copy in the extensions from our Node, if any.
 	defer func(n Node) {
@@ -655,6 +659,9 @@ func ToEntry(n Node) (e *Entry) {
 		g := FindGrouping(s, s.Name, map[string]bool{})
 		if g == nil {
 			return newError(n, "unknown group: %s", s.Name)
+		}
+		if ms.groupingInProgress(g) {
+			return newError(n, "grouping %s uses itself (circular dependency)", s.Name)
 		}
 		// We need to return a duplicate so we resolve properly
 		// when the group is used in multiple locations and the
